@@ -37,6 +37,10 @@ T = {
  "C19-m2": ("C19", "hyphen detection refactored into a helper that is called with the object-right delimiter for tags: a tag's closing hyphen is looked for at the wrong offset when the two right delimiters differ in length", "c19.equivalence"),
  "C20-m1": ("C20", "writeObject keeps only the last element's write error when printing an array: an array with an empty tail as the last output swallows the failure", "c20.write-faults after programs gained array prints with nil/empty tails; missed before"),
  "C20-m2": ("C20", "RenderSequence flushes in a defer that keeps the 'primary' error: a flush failure is dropped while a break/continue pseudo-error unwinds and the loop then discards that", "c20.write-faults after programs gained endings in a loop whose last action is break/continue (and bare jumps); missed before"),
+ "C02-m1": ("C02", "SortedMapKeys' comparator reads key ranks from a parallel slice that sort.Slice does not permute: maps mixing key classes (numbers and strings in a map[any]any) come out in an order that depends on Go's random MapKeys order", "c02.entry-points (the mixed-key map binding)"),
+ "C02-m2": ("C02", "sort drops its defensive copy: a []any binding is sorted in place, so a second render with the same bindings value sees another order", "c02.entry-points after three renders were made to share one bindings value; missed while every render got fresh bindings (c03.history caught it from the start)"),
+ "C04-m1": ("C04", "concat becomes append(a, b...): concurrent renders write into the spare capacity of a shared []any binding", "c04.concurrent (race report in the concat filter; shared bindings are given spare capacity)"),
+ "C04-m2": ("C04", "Scan fills the defaults for empty delimiters into the engine's own Delims slice: concurrent first parses on an engine configured with Delims(\"\", ...) race", "c04.concurrent after cases gained Engine.Delims configurations and 'cold' engines whose first use is concurrent; missed before"),
  "C17-m1": ("C17", "round gains a fast path math.Floor(n+0.5) for places == 0: odd integers between 2^52 and 2^53 round to their even neighbour", "c17.apply"),
  "C17-m2": ("C17", "ValueOf interns float 0.0/1.0 as int 0/1: divided_by with a float divisor of exactly 1.0 does integer division", "c17.apply"),
 }
